@@ -33,10 +33,18 @@ class SInstantSeconds(Sym):
 def attr(interp, o, name):
     ctx = interp.ctx
     us = o.t
+    if o.kind == "naive_datetime":
+        # a naive datetime: `us` is its wall-clock value; no instant is defined
+        if name == "tzinfo":
+            return None
+        if name == "microsecond":
+            return lower(us % 10 ** 6)
+        raise Undecided(f"naive datetime.{name} is not modelled")
+    off = o.aux        # UTC offset in microseconds (None = UTC); assumed a whole number of milliseconds
     if name == "tzinfo":
-        return datetime.timezone.utc
+        return datetime.timezone.utc if off is None else STz(off)
     if name == "microsecond":
-        return lower(us % 10 ** 6)
+        return lower((us if off is None else us + off) % 10 ** 6)
     if name == "timestamp":
         return SymMethod(lambda: SInstantSeconds(us), "timestamp")
     if name == "utcoffset":
@@ -49,9 +57,22 @@ def attr(interp, o, name):
             mt = zint(m)
             if not ctx.decide(z3.And(mt >= 0, mt <= 999999)):
                 raise PyRaise(ValueError, "microsecond must be in 0..999999")
-            return SOpaque(z3.simplify(us - us % 10 ** 6 + mt), "datetime")
+            loc = us if off is None else us + off
+            return SOpaque(z3.simplify(us - loc % 10 ** 6 + mt), "datetime", off)
         return SymMethod(replace, "replace")
     raise Undecided(f"datetime.{name} is not modelled")
+
+
+class STz(Sym):
+    """tzinfo of a symbolic aware datetime with a fixed offset"""
+
+    def __init__(self, off):
+        self.off = off
+
+    def kvc_getattr(self, interp, name, fr, node):
+        if name == "utcoffset":
+            return SymMethod(lambda dt=None: SOpaque(self.off, "timedelta"), "utcoffset")
+        raise Undecided(f"tzinfo.{name} is not modelled")
 
 
 def compare_instant(interp, op, a, b):
